@@ -17,15 +17,18 @@ Status. Every statement is proved at full strength, with no guard: `C16_lines`, 
 three options and three marker bits), the coverage effect of the filter list, nothing else
 changes, no options / unreadable source ⇒ identity, only lines of the file are touched, each at
 most once and in order.
-The piece after a final newline. `split('\n')` yields one more piece than the text has lines when
-the text ends with LF (and one empty piece for the empty text); the pass numbers it `n+1` and
-treats it like an empty source line (`C16_phantom_line`): a coverage key `n+1` – data about a line
-the source does not have – is removed iff an empty line would be (marker matching the empty
-string, or a region left open at the end of the text). "Only lines of the file are touched"
-therefore holds for the PIECES (`C16_only_source_lines`, `C16_only_pieces`) and, read strictly
-(lines as every other reader counts them, `realLines`), is false by exactly this one key
-(`C16_only_real_lines_false`, `…_partial` for texts without final newline; finding candidate
-C16-line-after-final-newline).
+The piece after a final newline. Until /repo f854858 the pass split with the plain `split('\n')`,
+which yields one more piece than the text has lines when the text ends with LF; the pass numbered
+it `n+1` and treated it like an empty source line, so a coverage key `n+1` – data about a line the
+source does not have – was removed when a region was left open at the end of the text (former
+finding C16-line-after-final-newline, fixed; witness `S\n` with `--excl-start S`: corpus/C16). Now
+exactly one final LF is dropped before splitting (`stripFinalLF`, `splitSrc`): for every NON-EMPTY
+text the pieces are exactly its lines as every other reader counts them (`C16_phantom_line`:
+there is none; `C16_final_newline_pieces`; `C16_only_real_lines`, full for non-empty texts). A text
+ending in two newlines has an empty last LINE (it is a line: `realLines` counts it). What remains
+is the empty text: it has no line but still one empty piece, so key 1 is removed iff the line or
+start marker matches the empty string (`C16_empty_file`); hence the statement over ALL texts is
+still false by exactly that case (`C16_only_real_lines_false`).
 History: on the tree before /repo commit c7806a2 the first three were false (a single-line marker
 on a line lying only in a region of the other kind was ignored: the region flags were tested
 first and the single-line markers were an `else` of both flags). `witnessA` / `witnessB` below
@@ -120,8 +123,8 @@ theorem C16_functions_unchanged (o : Opts) (r : Bool) (ms : List Bits) (c : Cov)
 
 /-- Only pieces of the file are touched: a key that is 0 or beyond the number of pieces of
 `split('\n')` is never removed, whatever the markers (an unterminated region ends with the file).
-`ms.length` is the number of PIECES: for a text that ends with a line feed that is one more than
-its number of lines – see `C16_phantom_line`, `C16_only_real_lines_false`. -/
+`ms.length` is the number of PIECES; on source level that is the number of lines of every non-empty
+text – see `C16_phantom_line`, `C16_only_real_lines`. -/
 theorem C16_only_source_lines (o : Opts) (r : Bool) (ms : List Bits) (n : Nat)
     (hlen : ms.length ≤ U32MAX)
     (h : removesLine (create o r ms) n ∨ removesBranch (create o r ms) n) :
@@ -159,90 +162,104 @@ theorem C16_region_step (start stop : Nat → Prop) (n : Nat) :
 
 /-! ## Line splitting, and the piece after a final newline -/
 
-/-- `file.split('\n')` on a text that ends with a line feed: the pieces of the text before that
-line feed, then one empty piece; the match bits follow; the text has as many lines as the part
-before the final line feed has pieces. -/
+/-- `file.strip_suffix('\n').unwrap_or(&file).split('\n')` on a text that ends with a line feed:
+exactly the pieces of the text before that line feed – the final newline adds no piece – and that
+is the number of lines of the text; when the part before does not itself end with a line feed the
+match bits, hence everything `create` does, are those of the text without the final newline. -/
 theorem C16_final_newline_pieces (rx : Rx) (body : List Nat) :
-    splitLF (body ++ [10]) = splitLF body ++ [[]] ∧
-    sourceBits rx (body ++ [10]) = sourceBits rx body ++ [rx.bits []] ∧
-    realLines (body ++ [10]) = (sourceBits rx body).length := by
-  refine ⟨splitLF_snoc_lf body, sourceBits_snoc_lf rx body, ?_⟩
-  rw [realLines_snoc_lf, sourceBits_length]
+    splitSrc (body ++ [10]) = splitLF body ∧
+    realLines (body ++ [10]) = (splitSrc (body ++ [10])).length ∧
+    (body.getLast? ≠ some 10 → sourceBits rx (body ++ [10]) = sourceBits rx body) := by
+  refine ⟨splitSrc_snoc_lf body, ?_, sourceBits_snoc_lf rx body⟩
+  rw [realLines_snoc_lf, splitSrc_snoc_lf]
 
-/-- For a source that ends with LF (`body ++ "\n"`, `n` = number of its lines): the final newline
-changes nothing for the lines `1..n`, and key `n+1` is treated as an empty source line – its line
-data is removed iff the line marker matches the empty string, or the start marker does, or the
-line region is still open after line `n` and the stop marker does not match the empty string; the
-same for branch data with the branch markers. -/
+/-- There is no phantom line: for every non-empty source the pass enumerates exactly the lines of
+the text (as `str::lines`, `wc -l`, gcov and html.rs count them), so for a source ending with LF
+(`n` lines) the key `n+1` is never removed, whatever the markers and however many regions are left
+open; and a single final newline is invisible – the filter list of `body ++ "\n"` is that of
+`body`. -/
 theorem C16_phantom_line (o : Opts) (rx : Rx) (body : List Nat)
-    (hlen : (sourceBits rx body).length + 1 ≤ U32MAX) :
-    (∀ n, n ≤ (sourceBits rx body).length →
-      (removesLine (createSrc o rx (some (body ++ [10]))) n
-        ↔ removesLine (createSrc o rx (some body)) n) ∧
-      (removesBranch (createSrc o rx (some (body ++ [10]))) n
-        ↔ removesBranch (createSrc o rx (some body)) n)) ∧
-    (removesLine (createSrc o rx (some (body ++ [10]))) ((sourceBits rx body).length + 1) ↔
-      hit o.line (rx.line []) = true ∨ hit o.start (rx.start []) = true ∨
-        (inLineRegion o (sourceBits rx body) (sourceBits rx body).length
-          ∧ hit o.stop (rx.stop []) = false)) ∧
-    (removesBranch (createSrc o rx (some (body ++ [10]))) ((sourceBits rx body).length + 1) ↔
-      hit o.brLine (rx.brLine []) = true ∨ hit o.brStart (rx.brStart []) = true ∨
-        (inBrRegion o (sourceBits rx body) (sourceBits rx body).length
-          ∧ hit o.brStop (rx.brStop []) = false)) := by
-  simp only [createSrc, sourceBits_snoc_lf]
-  exact ⟨fun n hn => ⟨removesLine_append_le o _ _ n hlen hn, removesBranch_append_le o _ _ n hlen hn⟩,
-    removesLine_append_last o _ _ hlen, removesBranch_append_last o _ _ hlen⟩
+    (hlen : (splitLF body).length ≤ U32MAX) :
+    (sourceBits rx (body ++ [10])).length = realLines (body ++ [10]) ∧
+    ¬ removesLine (createSrc o rx (some (body ++ [10]))) (realLines (body ++ [10]) + 1) ∧
+    ¬ removesBranch (createSrc o rx (some (body ++ [10]))) (realLines (body ++ [10]) + 1) ∧
+    (body.getLast? ≠ some 10 →
+      createSrc o rx (some (body ++ [10])) = createSrc o rx (some body)) := by
+  have hl : (sourceBits rx (body ++ [10])).length = realLines (body ++ [10]) := by
+    rw [sourceBits_length, splitSrc_length _ (by simp)]
+  have hr : ∀ n, removesLine (createSrc o rx (some (body ++ [10]))) n ∨
+      removesBranch (createSrc o rx (some (body ++ [10]))) n → n ≤ realLines (body ++ [10]) := by
+    intro n h
+    have := removes_range o (sourceBits rx (body ++ [10]))
+      (by rw [sourceBits_length, splitSrc_snoc_lf]; exact hlen) true n h
+    omega
+  refine ⟨hl, fun h => ?_, fun h => ?_, fun h => ?_⟩
+  · have := hr _ (Or.inl h); omega
+  · have := hr _ (Or.inr h); omega
+  · simp only [createSrc, sourceBits_snoc_lf rx body h]
 
-/-- With markers that do not match an empty line (every literal marker): key `n+1` is removed iff
-the region is left open at the end of the text. -/
-theorem C16_phantom_line_open_region (o : Opts) (rx : Rx) (body : List Nat)
-    (hlen : (sourceBits rx body).length + 1 ≤ U32MAX)
-    (he : rx.bits [] = ⟨false, false, false, false, false, false⟩) :
-    (removesLine (createSrc o rx (some (body ++ [10]))) ((sourceBits rx body).length + 1) ↔
-      inLineRegion o (sourceBits rx body) (sourceBits rx body).length) ∧
-    (removesBranch (createSrc o rx (some (body ++ [10]))) ((sourceBits rx body).length + 1) ↔
-      inBrRegion o (sourceBits rx body) (sourceBits rx body).length) := by
-  have h := C16_phantom_line o rx body hlen
-  simp only [Rx.bits, Bits.mk.injEq] at he
-  obtain ⟨e1, e2, e3, e4, e5, e6⟩ := he
-  rw [h.2.1, h.2.2, e1, e2, e3, e4, e5, e6]
-  simp [hit]
-
-/-- On source level: whatever is removed is a piece of the source, i.e. at most one past its last
-line; nothing is removed when the source cannot be read. -/
+/-- Whatever is removed is a piece of the source; nothing is removed when the source cannot be
+read. -/
 theorem C16_only_pieces (o : Opts) (rx : Rx) (src : Option (List Nat)) (n : Nat)
-    (hlen : ∀ s, src = some s → (splitLF s).length ≤ U32MAX)
+    (hlen : ∀ s, src = some s → (splitSrc s).length ≤ U32MAX)
     (h : removesLine (createSrc o rx src) n ∨ removesBranch (createSrc o rx src) n) :
-    ∃ s, src = some s ∧ 1 ≤ n ∧ n ≤ realLines s + 1 :=
+    ∃ s, src = some s ∧ 1 ≤ n ∧ n ≤ (splitSrc s).length :=
   removes_range_src o rx src n hlen h
 
-/-- The strict reading of "nothing else in the file's data changes": only keys that are lines of
-the source (as every other reader counts them) are ever removed. -/
+/-- "Nothing else in the file's data changes", read strictly, for every non-empty source text
+(LF or CRLF, with or without final newline, also ending in several newlines): only keys that are
+lines of the source – as every other reader counts them – are ever removed. -/
+theorem C16_only_real_lines (o : Opts) (rx : Rx) (src : List Nat) (n : Nat)
+    (hlen : (splitSrc src).length ≤ U32MAX) (hne : src ≠ [])
+    (h : removesLine (createSrc o rx (some src)) n ∨ removesBranch (createSrc o rx (some src)) n) :
+    1 ≤ n ∧ n ≤ realLines src := by
+  rw [← splitSrc_length src hne, ← sourceBits_length rx]
+  exact removes_range o (sourceBits rx src) (by rw [sourceBits_length]; exact hlen) true n h
+
+/-- What remains: the EMPTY text has no line, but `"".split('\n')` still yields one empty piece, so
+key 1 is treated as an empty source line – removed iff the line marker or the start marker matches
+the empty string (no region can be open before it); the same for branches. -/
+theorem C16_empty_file (o : Opts) (rx : Rx) :
+    realLines [] = 0 ∧ createSrc o rx (some []) = create o true [rx.bits []] ∧
+    (removesLine (createSrc o rx (some [])) 1 ↔
+      hit o.line (rx.line []) = true ∨ hit o.start (rx.start []) = true) ∧
+    (removesBranch (createSrc o rx (some [])) 1 ↔
+      hit o.brLine (rx.brLine []) = true ∨ hit o.brStart (rx.brStart []) = true) := by
+  refine ⟨realLines_nil, createSrc_nil o rx, ?_, ?_⟩
+  · rw [createSrc_nil]
+    have := removesLine_append_last o [] (rx.bits []) (by decide)
+    simp only [List.nil_append, List.length_nil, Nat.zero_add] at this
+    rw [this]
+    simp [inLineRegion_nil_zero, Rx.bits]
+  · rw [createSrc_nil]
+    have := removesBranch_append_last o [] (rx.bits []) (by decide)
+    simp only [List.nil_append, List.length_nil, Nat.zero_add] at this
+    rw [this]
+    simp [inBrRegion_nil_zero, Rx.bits]
+
+/-- The statement over ALL texts, the empty one included. -/
 def C16_only_real_lines_stmt : Prop :=
-  ∀ (o : Opts) (rx : Rx) (src : List Nat) (n : Nat), (splitLF src).length ≤ U32MAX →
+  ∀ (o : Opts) (rx : Rx) (src : List Nat) (n : Nat), (splitSrc src).length ≤ U32MAX →
     removesLine (createSrc o rx (some src)) n ∨ removesBranch (createSrc o rx (some src)) n →
     1 ≤ n ∧ n ≤ realLines src
 
-/-- the start marker `S`, nothing else configured -/
+/-- a line marker that matches the empty line (`^$`), nothing else configured -/
+def emptyLineRx : Rx :=
+  ⟨fun l => l == [], fun _ => false, fun _ => false, fun _ => false, fun _ => false, fun _ => false⟩
+
+/-- the start marker `S` (the witness of the former finding C16-line-after-final-newline) -/
 def witnessRx : Rx :=
   ⟨fun _ => false, fun l => l == [83], fun _ => false, fun _ => false, fun _ => false, fun _ => false⟩
 
-/-- It is false of the code: the one-line source `S\n` with `--excl-start S` removes key 2. -/
+/-- It is false only through the empty text (`C16_empty_file`): an empty source with
+`--excl-line '^$'` removes key 1 although the source has no line. `C16_only_real_lines` is the
+statement under exactly the guard this witness violates. -/
 theorem C16_only_real_lines_false : ¬ C16_only_real_lines_stmt := by
   intro h
-  have := h ⟨false, true, false, false, false, false⟩ witnessRx [83, 10] 2 (by decide)
+  have := h ⟨true, false, false, false, false, false⟩ emptyLineRx [] 1 (by decide)
     (Or.inl (by decide))
   revert this
   decide
-
-/-- It holds for every text that does not end with a line feed (and is not empty): exactly the
-guard the witness violates. -/
-theorem C16_only_real_lines_partial (o : Opts) (rx : Rx) (src : List Nat) (n : Nat)
-    (hlen : (splitLF src).length ≤ U32MAX) (h1 : src ≠ []) (h2 : src.getLast? ≠ some 10)
-    (h : removesLine (createSrc o rx (some src)) n ∨ removesBranch (createSrc o rx (some src)) n) :
-    1 ≤ n ∧ n ≤ realLines src := by
-  rw [realLines_no_final_lf src h1 h2, ← sourceBits_length rx]
-  exact removes_range o (sourceBits rx src) (by rw [sourceBits_length]; exact hlen) true n h
 
 /-! ## Non-vacuity: concrete sources that satisfy the hypotheses and exercise every branch -/
 
@@ -312,17 +329,23 @@ example : rewrite allOpts true exSrc
     = { lines := [(5, 0), (10, 7)], branches := [(1, [true]), (10, [true])],
         functions := [([102], ⟨1, true⟩)] } := by decide
 
-/-- line splitting: `a\r\n` + `b` + LF + LF  is  `a`, `b`, ``, `` (CR of CRLF removed, two empty
-pieces); `S\n` with `--excl-start S`: `L1,L2` – key 2 is the piece after the final newline; without
-the final newline: `L1` -/
-example : (splitLF [97, 13, 10, 98, 10, 10]).map stripCR = [[97], [98], [], []] ∧
+/-- line splitting: `a\r\n` + `b` + LF + LF  is  `a`, `b`, `` (CR of CRLF removed; one final LF
+dropped, the second makes an empty last line – 3 lines); the former witness `S\n` with
+`--excl-start S` now gives `L1` like `S` without newline (before f854858: `L1,L2`); `S\n\n` has
+two lines and gives `L1,L2` -/
+example : (splitSrc [97, 13, 10, 98, 10, 10]).map stripCR = [[97], [98], []] ∧
     realLines [97, 13, 10, 98, 10, 10] = 3 ∧ realLines [] = 0 ∧ realLines [97] = 1 ∧
-    createSrc ⟨false, true, false, false, false, false⟩ witnessRx (some [83, 10]) = [.line 1, .line 2] ∧
-    createSrc ⟨false, true, false, false, false, false⟩ witnessRx (some [83]) = [.line 1] := by
+    createSrc ⟨false, true, false, false, false, false⟩ witnessRx (some [83, 10]) = [.line 1] ∧
+    createSrc ⟨false, true, false, false, false, false⟩ witnessRx (some [83]) = [.line 1] ∧
+    createSrc ⟨false, true, false, false, false, false⟩ witnessRx (some [83, 10, 10])
+      = [.line 1, .line 2] ∧ realLines [83, 10, 10] = 2 := by
   decide
 
-/-- the hypotheses of `C16_phantom_line_open_region` hold for the witness -/
-example : (sourceBits witnessRx [83]).length + 1 ≤ U32MAX ∧
-    witnessRx.bits [] = ⟨false, false, false, false, false, false⟩ := by decide
+/-- the hypotheses of `C16_phantom_line` / `C16_only_real_lines` hold for the witness; the empty
+file with the empty-line marker: `L1` -/
+example : (splitLF [83]).length ≤ U32MAX ∧ ([83] : List Nat).getLast? ≠ some 10 ∧
+    ([83, 10] : List Nat) ≠ [] ∧
+    createSrc ⟨true, false, false, false, false, false⟩ emptyLineRx (some []) = [.line 1] := by
+  decide
 
 end Grcov.Props.C16
